@@ -12,6 +12,8 @@ use std::{
 #[cfg(feature = "dot2")]
 mod graphviz;
 mod splitting;
+#[cfg(googlefonts_fontations_verif)]
+pub mod verif;
 
 static OBJECT_COUNTER: AtomicU64 = AtomicU64::new(0);
 
@@ -69,6 +71,8 @@ impl Space {
 
 impl ObjectId {
     pub fn next() -> Self {
+        #[cfg(googlefonts_fontations_verif)]
+        verif::sched_point();
         ObjectId(OBJECT_COUNTER.fetch_add(1, std::sync::atomic::Ordering::Relaxed))
     }
 }
